@@ -18,7 +18,7 @@
            pause  resume  hubWl <user> <addr>  hubRm <user> <addr>  advance <blocks> <epochs>
            calcAsUser <amt> <rps> <comp> <cur> <owner>     (the view called by a plain account: must fail)
            bad …                                            (malformed call: must fail)
-  views  : Q <n> calc <amt> <rps> <comp> <cur> <owner>      (VM query; its settlement is committed)
+  views  : Q <n> calc <amt> <rps> <comp> <cur> <owner>      (VM query: evaluated on a twin world by the harness, discarded here)
 -/
 import MxModel.Core.Staking
 import MxModel.Driver.Proto
@@ -170,7 +170,7 @@ def handle (s : SSt) (line : String) : SSt × Option String :=
       | none => (s, some s!"R {n} err")
   | "Q" :: n :: rest =>
       match (parseOp rest).bind (step s) with
-      | some (s', o) => (s', some s!"V {n} ok {o.c} | {showState s'}")
+      | some (s', o) => (s', some s!"V {n} ok {o.c}")
       | none => (s, some s!"V {n} err")
   | _ => (s, none)
 
